@@ -31,7 +31,8 @@ def print_tm(g, opts=None, pkgroot="vgen"):
         lines.append("%s = %s" % (k, v))
     lines += ["", ":: lexer", ""]
     for t in list(g["terms"]) + list(g.get("extra_terms", "")):
-        lines.append("%s%s: /%s/" % (t, " {int}" if g.get("typed_terms") else "", g.get("patterns", {}).get(t, t)))
+        ty = g.get("term_types", {}).get(t, "int") if g.get("typed_terms") else None
+        lines.append("%s%s: /%s/" % (t, (" {%s}" % ty) if ty else "", g.get("patterns", {}).get(t, t)))
     if g.get("uses_error"):
         lines.append("error:")
     if g.get("lexer_extra"):
